@@ -135,13 +135,14 @@ end CustomFeatureFormat
 namespace StateFeature
 variable {α : Type}
 
-/-- `impl PartialEq for StateFeature`: same kind; for custom features same type and unit name
-    (units and initial values of distance / time / energy, and the custom format, are ignored) -/
+/-- `impl PartialEq for StateFeature`: same kind; for custom features same type, unit name and
+    format name (units and initial values of distance / time / energy, and the initial value of a
+    custom feature, are ignored) -/
 def eqv : StateFeature α → StateFeature α → Bool
   | .distance _ _, .distance _ _ => true
   | .time _ _, .time _ _ => true
   | .energy _ _, .energy _ _ => true
-  | .custom t1 u1 _, .custom t2 u2 _ => t1 == t2 && u1 == u2
+  | .custom t1 u1 f1, .custom t2 u2 f2 => t1 == t2 && u1 == u2 && f1.name == f2.name
   | _, _ => false
 
 /-- `get_feature_type` -/
